@@ -134,3 +134,62 @@ def _exact_lemma():
 
 _exact_lemma._mod = __name__
 W.lemmas = getattr(W, 'lemmas', []) + [('C08', 'subset', _exact_lemma)]
+
+
+# ------------------------------------------------------------------------------------------------ id assignment (R1)
+INDEX = ListOf(STR)
+def cname(*a):
+    """what construct() returns (declared per string mode)"""
+    return z3.Function('constructed_name', STR.sort(), Opt(INT).sort(), Opt(VER).sort(), STR.sort())(*a)
+
+
+def R1(table, index):
+    """name <-> id is a bijection onto 0..n-1: the index lists each catalogued name at its id and nothing else"""
+    i = z3.Int('r1_i')
+    k = z3.Const('r1_k', STR.sort())
+    n, arr = INDEX.len(index), INDEX.arr(index)
+    present = lambda key: Not(TABLE.opt.is_none(table[key]))
+    return [QHyp([i], Implies(And(0 <= i, i < n), table[arr[i]] == TABLE.opt.some(i)), 'R1.index->table'),
+            QHyp([k], Implies(present(k), And(0 <= TABLE.opt.val(table[k]), TABLE.opt.val(table[k]) < n, arr[TABLE.opt.val(table[k])] == k)), 'R1.table->index')]
+
+
+def R1_goal(c, table, index):
+    i, k = c.sk('i', INT), c.sk('k', STR)
+    n, arr = INDEX.len(index), INDEX.arr(index)
+    return {'R1.index->table': Implies(And(0 <= i, i < n), table[arr[i]] == TABLE.opt.some(i)),
+            'R1.table->index': Implies(Not(TABLE.opt.is_none(table[k])), And(0 <= TABLE.opt.val(table[k]), TABLE.opt.val(table[k]) < n, arr[TABLE.opt.val(table[k])] == k))}
+
+
+def _construct_fn(ex, args, kwargs, e):
+    a = (list(args) + [None, None])[:3]
+    return V(cname(ex.to_z3(a[0], STR), ex.to_z3(a[1], Opt(INT)), ex.to_z3(a[2], Opt(VER))), STR)
+
+
+@contract(W, 'dawgie/db/shelve/util.py', 'append', props=['C08', 'C06'])
+class append(ContractBase):
+    """one id per constructed name, ids never reassigned, the index and the table stay inverse of each other"""
+    params = {'name': STR, 'table': TABLE, 'index': INDEX, 'parent': Opt(INT), 'ver': Opt(VER)}
+    defaults = {'parent': None, 'ver': None}
+    returns = Tup(BOOL, INT, STR)
+    modifies = []            # only the two containers handed in
+    opaque_strings = True
+    externs = {'dawgie.db.shelve.util.construct': Extern(fn=_construct_fn)}      # its format: contract `construct` above
+    assumes = [lambda c: R1(c['table'], c['index']) + [INDEX.len(c['index']) >= 0]]       # (a list has a non-negative length)
+
+    def requires(c):
+        return {}
+
+    def ensures(c):
+        t0, x0 = c['table'], c['index']
+        t1, x1 = c.loc('table'), c.loc('index')
+        full_name = cname(c['name'], c['parent'], c['ver'])
+        k, i = c.sk('k', STR), c.sk('i', INT)
+        rid = Tup(BOOL, INT, STR).get(c.result, '_1')
+        out = dict(R1_goal(c, t1, x1))
+        out.update({
+            'id-of-the-constructed-name': And(t1[full_name] == TABLE.opt.some(rid), Tup(BOOL, INT, STR).get(c.result, '_2') == full_name),
+            'known-name-keeps-its-id': Implies(Not(TABLE.opt.is_none(t0[full_name])), And(t1[full_name] == t0[full_name], INDEX.len(x1) == INDEX.len(x0))),
+            'new-name-gets-the-next-id': Implies(TABLE.opt.is_none(t0[full_name]), And(rid == INDEX.len(x0), INDEX.len(x1) == INDEX.len(x0) + 1)),
+            'other-names-untouched': Implies(k != full_name, t1[k] == t0[k]),
+            'ids-never-reassigned': Implies(And(0 <= i, i < INDEX.len(x0)), INDEX.arr(x1)[i] == INDEX.arr(x0)[i])})
+        return out
